@@ -125,9 +125,10 @@ def render_func(prog, fname):
         elif t == "load":
             lines.append(f"    {r} = dds.load({it['path']!r})")
         elif t == "ext":
-            lines.append(f"    {r} = extlib.ext_fn()")
+            # behaviour of non-accepted code is by design not tracked: its value never flows into the result
+            lines.append(f"    {r} = extlib.ext_fn() and None")
         elif t == "extvar":
-            lines.append(f"    {r} = extlib.EXTV")
+            lines.append(f"    {r} = extlib.EXTV and None")
         else:
             raise ValueError(t)
     if f.get("end"):
